@@ -1284,11 +1284,8 @@ var truthKind = 0 // the kind the "case" variant is derived from (set by the cal
 
 // amounts over the whole math.Int range, boundary biased (2^255 at most once per history: the supply must fit 256 bits)
 func bigAmount(r *rand.Rand, n uint64, used *bool) string {
-	exps := []uint{63, 63, 64, 128, 200}
-	if !*used && r.Intn(3) == 0 {
-		*used = true
-		return new(big.Int).Lsh(big.NewInt(1), 255).String()
-	}
+	// 2^255 itself is driven by the corpus witness w_deposit_2p255.json (one application, nothing else in the history)
+	exps := []uint{63, 63, 64, 128, 200, 248}
 	x := new(big.Int).Lsh(big.NewInt(1), exps[r.Intn(len(exps))])
 	switch r.Intn(3) {
 	case 0:
@@ -1571,6 +1568,34 @@ func (e *env) structured(r *rand.Rand, hostile bool) []opT {
 	return ops
 }
 
+// capAmounts keeps the premise "the deposits of one token sum to less than 2^256" (true of any ERC20: its total
+// supply is a uint256; the bank's supply is a 256-bit math.Int and a mint beyond it panics): per chain (= per denom)
+// the running sum of the huge amounts of the generated vote operations — each counted as if it alone made the
+// claim take effect once — stays below 2^255 + 2^200; an amount that no longer fits falls back to the small one.
+var amountBudget = new(big.Int).Add(new(big.Int).Lsh(big.NewInt(1), 255), new(big.Int).Lsh(big.NewInt(1), 200))
+
+func capAmounts(ops []opT) []opT {
+	sum := map[int]*big.Int{}
+	for i := range ops {
+		o := &ops[i]
+		if o.Kind != "vote" || o.Claim == nil || o.Claim.Big == "" || o.Claim.Batch || o.Claim.Sale {
+			continue
+		}
+		if sum[o.C] == nil {
+			sum[o.C] = new(big.Int)
+		}
+		next := new(big.Int).Add(sum[o.C], o.Claim.amount().BigInt())
+		if next.Cmp(amountBudget) > 0 {
+			c2 := *o.Claim
+			c2.Big = ""
+			o.Claim = &c2
+			continue
+		}
+		sum[o.C] = next
+	}
+	return ops
+}
+
 func (e *env) countBatches(ops []opT) int {
 	n := 0
 	for _, o := range ops {
@@ -1757,7 +1782,7 @@ func TestCorr(t *testing.T) {
 		default:
 			hostile := x >= 85
 			run.Count("kind", map[bool]string{true: "hostile", false: "structured"}[hostile])
-			e.history(run, e.structured(run.Rng, hostile), fmt.Sprintf("seed%d/%d", run.Seed, i))
+			e.history(run, capAmounts(e.structured(run.Rng, hostile)), fmt.Sprintf("seed%d/%d", run.Seed, i))
 		}
 		i++
 	}
